@@ -20,13 +20,18 @@ STATS = dict(queries=0, z3_time=0.0, cvc5_time=0.0, cvc5_queries=0)
 RLIMIT_PER_MS = int(os.environ.get('PV_Z3_RLIMIT_PER_MS', '12000'))
 
 
+WALL_FACTOR = int(os.environ.get('PV_Z3_WALL_FACTOR', '6'))
+
+
 def _mk_solver(timeout_ms):
     s = z3.Solver()
-    s.set('timeout', timeout_ms)
-    # Deterministic backstop: z3's wall-clock timer is a helper thread, and it has been seen not to fire in heavily
-    # loaded forked workers (a check then spins for ever).  The resource limit is counted inside the solver, needs no
-    # thread, and is about three times the time limit on this machine (~4M units per second), so it never decides a
-    # query the timeout would not have stopped first.
+    # The budget of a query is its resource limit (deterministic: the same query gets the same verdict on an idle and on
+    # a fully loaded machine); the wall-clock timer is only a generous backstop behind it, so that a verdict does not
+    # flip to 'unknown' because 16 other processes share the cores (seen: a 6 s query timing out at 8 s under load 40).
+    s.set('timeout', timeout_ms * WALL_FACTOR)
+    # The resource limit is counted inside the solver and needs no helper thread (z3's timer thread has also been seen not
+    # to fire in heavily loaded forked workers); about 4M units per second on this machine, i.e. roughly three times the
+    # nominal time limit.
     s.set('rlimit', max(1, timeout_ms) * RLIMIT_PER_MS)
     return s
 
